@@ -22,7 +22,8 @@ EXTENDS Integers, Sequences, FiniteSets, TLC
 
 CONSTANTS Shots, Calcs, WeaponOf, AmmoOf,     \* object graph: functions Shots -> weapon / ammo names
           Distances, Requests, DirtRule, MaxOps,
-          Ops                                 \* the operations a session may use (focused enumerations use a sub-alphabet)
+          Ops,                                \* the operations a session may use (focused enumerations use a sub-alphabet)
+          MaxEdits                            \* how often the caller may edit one ammunition in place
 
 Weapons == {WeaponOf[s] : s \in Shots}
 Untouched == <<"z0">>      \* zero tokens are flat sequences of strings: the chain of successful zeroings
@@ -80,11 +81,11 @@ Build(s) ==
   /\ Step([a |-> "Build", c |-> "", s |-> s, arg |-> "mbc", res |-> <<"Build", AmmoOf[s]>>, ok |-> TRUE])
   /\ UNCHANGED <<content, zero, version, dirt>>
 
-\* the caller edits a shot's ammunition IN PLACE (its drag table, or its powder-sensitivity configuration - the binding
-\* alternates): the same objects carry new content, and every later result must be the one for the new content (a solver
+\* the caller edits a shot's ammunition IN PLACE (its drag table, its powder-sensitivity configuration, the bullet
+\* dimensions of its drag model, its muzzle velocity - the binding cycles through them): the same objects carry new content, and every later result must be the one for the new content (a solver
 \* that cached something derived from the table, or keyed on the identity of the objects, would not notice)
 EditTable(s) ==
-  /\ content[AmmoOf[s]] < 2
+  /\ content[AmmoOf[s]] < MaxEdits
   /\ Step([a |-> "EditTable", c |-> "", s |-> s, arg |-> "scaleCD", res |-> <<"EditTable", AmmoOf[s]>>, ok |-> TRUE])
   /\ content' = [content EXCEPT ![AmmoOf[s]] = content[AmmoOf[s]] + 1]
   /\ UNCHANGED <<zero, version, dirt>>
